@@ -83,6 +83,12 @@ Theorem C10_vec_after_fix : forall (hist : Qc -> list Qc) start (par dpar : nat 
 Proof. exact vec_checked_refines. Qed.
 Print Assumptions C10_vec_after_fix.
 
+(* with the per-unit repair (fixes/proposed_fix_C10_F5_perunit.diff) the full vector statement holds *)
+Theorem C10_vec_after_perunit_fix : forall (hist : Qc -> list Qc) start (par dpar : nat -> nat -> Qc) n m md t y,
+  vimpl_eval_perunit hist start par dpar n m md t y = vspec_eval hist start par dpar n m md t y.
+Proof. exact vec_perunit_full. Qed.
+Print Assumptions C10_vec_after_perunit_fix.
+
 (* F5: two units, x' = x(t - d0) with d0 = (1, 2), hist(t) = (t, t): unit 1 must read hist(t-2) and reads hist(t-1) *)
 Theorem C10_vec_refuted_delay_parameter : ~ C10_vec_full_statement.
 Proof.
